@@ -41,7 +41,6 @@ structure TSim (cfg : Cfg) (s : Txn) (t : STxn) : Prop where
   ro : s.readOnly = t.readOnly
   ended : s.ended = t.ended
   changed : s.changed = t.touched
-  unchanged : s.changed = false → s.ver = s.zone
 
 /-! ### value layer: headers are preserved -/
 
@@ -107,7 +106,7 @@ theorem put_refines (cfg : Cfg) (s : Txn) (t : STxn) (k : Name) (r : Rdataset) (
     TSim cfg { s with ver := nodesSet s.ver k (((nodesGet s.ver k).getD []).replace r), changed := true }
       { t with ver := t.ver.put k r, touched := true } :=
   { zone := h.zone, ver := sim_put _ _ _ k r h.ver h.iver hr, izone := h.izone,
-    iver := inv_put _ _ k r h.iver hr, ro := h.ro, ended := h.ended, changed := rfl, unchanged := by simp }
+    iver := inv_put _ _ k r h.iver hr, ro := h.ro, ended := h.ended, changed := rfl }
 
 theorem addCore_refines (cfg : Cfg) (hg : GoodCfg cfg) (s : Txn) (t : STxn) (h : TSim cfg s t)
     (replace : Bool) (name : Name) (rds : Rdataset) (extra veto : Bool) :
@@ -180,7 +179,7 @@ theorem checkedDeleteRdataset_refines (cfg : Cfg) (hg : GoodCfg cfg) (s : Txn) (
   · unfold checkedDeleteRdataset
     simp [hv, deleteRdataset_good cfg hg s.ver name k ty c hv]
   · exact { zone := h.zone, ver := sim_delRds _ _ _ k ty c h.ver h.iver, izone := h.izone,
-            iver := inv_delRds _ _ k ty c h.iver, ro := h.ro, ended := h.ended, changed := rfl, unchanged := by simp }
+            iver := inv_delRds _ _ k ty c h.iver, ro := h.ro, ended := h.ended, changed := rfl }
 
 theorem deleteAll_refines (cfg : Cfg) (s : Txn) (t : STxn) (h : TSim cfg s t) (exact : Bool) (name : Name) (veto : Bool) :
     let sp : STxn × Res :=
@@ -203,7 +202,7 @@ theorem deleteAll_refines (cfg : Cfg) (s : Txn) (t : STxn) (h : TSim cfg s t) (e
     · rw [if_pos hp]
       refine ⟨?_, rfl⟩
       exact { zone := h.zone, ver := sim_delName _ _ _ k h.ver, izone := h.izone, iver := h.iver.erase k,
-              ro := h.ro, ended := h.ended, changed := by simp [← h.ver.2 k, hp, h.changed], unchanged := by simp }
+              ro := h.ro, ended := h.ended, changed := by simp [← h.ver.2 k, hp, h.changed] }
     · rw [if_neg hp]
       have hnone : nodesGet s.ver k = none := by
         cases hq : nodesGet s.ver k with
@@ -217,8 +216,7 @@ theorem deleteAll_refines (cfg : Cfg) (s : Txn) (t : STxn) (h : TSim cfg s t) (e
       refine ⟨?_, rfl⟩
       exact { zone := h.zone, ver := Sim.congr hc (sim_delName _ _ _ k h.ver), izone := h.izone, iver := h.iver,
               ro := h.ro, ended := h.ended,
-              changed := by simp [← h.ver.2 k, hnone, h.changed],
-              unchanged := by simpa using h.unchanged }
+              changed := by simp [← h.ver.2 k, hnone, h.changed] }
   show TSim cfg (deleteAll cfg s exact name veto).1 sp.1 ∧ (deleteAll cfg s exact name veto).2 = sp.2
   simp only [sp]
   unfold deleteAll
@@ -337,27 +335,20 @@ theorem end_refines (cfg : Cfg) (s : Txn) (t : STxn) (h : TSim cfg s t) (commit 
   rw [if_neg he, if_neg he]
   by_cases hr : s.readOnly = true
   · rw [if_pos hr, if_pos hr]
-    exact ⟨{ zone := h.zone, ver := h.ver, izone := h.izone, iver := h.iver, ro := rfl, ended := rfl, changed := h.changed,
-             unchanged := h.unchanged }, by first | rfl | trivial⟩
+    exact ⟨{ zone := h.zone, ver := h.ver, izone := h.izone, iver := h.iver, ro := rfl, ended := rfl, changed := h.changed }, by first | rfl | trivial⟩
   rw [if_neg hr, if_neg hr]
   cases commit with
   | false =>
     simp only [Bool.false_eq_true, false_and, if_false]
-    exact ⟨{ zone := h.zone, ver := h.ver, izone := h.izone, iver := h.iver, ro := rfl, ended := rfl, changed := h.changed,
-             unchanged := h.unchanged }, by first | rfl | trivial⟩
+    exact ⟨{ zone := h.zone, ver := h.ver, izone := h.izone, iver := h.iver, ro := rfl, ended := rfl, changed := h.changed }, by first | rfl | trivial⟩
   | true =>
     simp only [true_and, if_true]
+    rw [← h.changed]
     by_cases hc : s.changed = true
-    · rw [if_pos hc]
-      exact ⟨{ zone := h.ver, ver := h.ver, izone := h.iver, iver := h.iver, ro := rfl, ended := rfl, changed := h.changed,
-               unchanged := fun _ => rfl }, by first | rfl | trivial⟩
-    · rw [if_neg hc]
-      have hc' : s.changed = false := by simpa using hc
-      have hz := h.unchanged hc'
-      refine ⟨{ zone := ?_, ver := h.ver, izone := h.izone, iver := h.iver, ro := rfl, ended := rfl, changed := h.changed,
-                unchanged := h.unchanged }, by first | rfl | trivial⟩
-      show Sim cfg.rdclass s.zone t.ver
-      rw [← hz]; exact h.ver
+    · rw [if_pos hc, if_pos hc]
+      exact ⟨{ zone := h.ver, ver := h.ver, izone := h.iver, iver := h.iver, ro := rfl, ended := rfl, changed := h.changed }, by first | rfl | trivial⟩
+    · rw [if_neg hc, if_neg hc]
+      exact ⟨{ zone := h.zone, ver := h.ver, izone := h.izone, iver := h.iver, ro := rfl, ended := rfl, changed := h.changed }, by first | rfl | trivial⟩
 
 /-! ### one call -/
 
